@@ -4,11 +4,11 @@ CONSTANTS
   NO = 1
   ND = 1
   NP = 1
-  Names = {"a", "b"}
-  Vals = {1, 2}
-  Acts = {"CreateGroup", "CreateObject", "AddData", "Rename", "SetFlag", "SetVal", "Move", "AddToGroup", "RemoveFromGroup", "RemovePG", "RemoveViaWorkspace", "RemoveViaParent", "DropRef", "Collect", "Purge", "Copy", "Close", "Open", "MoveSame", "StripOpt"}
+  Names = {"a"}
+  Vals = {1}
+  Acts = {"CreateGroup", "CreateObject", "AddData", "AddToGroup", "Copy2", "Remove2", "RemoveViaWorkspace", "Copy"}
   Deviations = {"CloseKeepsOrphans"}
-  MaxDepth = 6
+  MaxDepth = 8
 CONSTRAINT DepthBound
 VIEW vw
 INVARIANT TypeOK
